@@ -27,7 +27,9 @@ ImplCompare(x, y, op) ==
   IN IF r2 # "NI" THEN r2
      ELSE CASE op = "eq" -> B(x.id = y.id) [] op = "ne" -> B(x.id # y.id) [] OTHER -> "TypeError"
 
-\* abstract hash: equal keys <=> equal hashes (up to collisions of the real hash function)
+\* abstract hash: equal keys <=> equal hashes.  The specification does not contain CPython's hash function
+\* (reduction modulo 2^61 - 1); the law is stated over this key, which is injective on equality, and the binding
+\* carries the real hash values - the universe and the drivers contain the boundaries of the real function.
 ZeroNum == [k |-> "num", c |-> "zero", neg |-> FALSE, e |-> 0, m |-> <<>>]
 Canon(v) == IF v.k = "num" THEN (IF v.c = "zero" THEN ZeroNum ELSE v)
             ELSE IF v.k = "cplx" /\ IsZeroNum(v.im) THEN (IF v.re.c = "zero" THEN ZeroNum ELSE v.re)
@@ -45,9 +47,13 @@ ImplHash(x) ==
 \* ---- the universe
 N(cl, neg, e, m) == [k |-> "num", c |-> cl, neg |-> neg, e |-> e, m |-> m]
 One == N("fin", FALSE, 0, <<1>>)
+Ones61 == [i \in 1..61 |-> 1]                  \* 2^61 - 1, the modulus of CPython's numeric hash
 Nums == << One, N("fin", TRUE, 0, <<1>>), N("zero", FALSE, 0, <<>>), N("zero", TRUE, 0, <<>>),
            N("fin", FALSE, 1, <<1, 1>>), N("fin", FALSE, 0 - 1, <<1>>), N("fin", FALSE, 63, <<1>>),
-           N("inf", FALSE, 0, <<>>), N("nan", FALSE, 0, <<>>) >>
+           N("inf", FALSE, 0, <<>>), N("nan", FALSE, 0, <<>>),
+           \* the structural boundaries of the hash: -2 (hash(-1) = -2), +-(2^61 - 1), 2 (2^61 - 1), 2^61
+           N("fin", TRUE, 1, <<1>>), N("fin", FALSE, 60, Ones61), N("fin", TRUE, 60, Ones61),
+           N("fin", FALSE, 61, Ones61), N("fin", FALSE, 61, <<1>>) >>
 Others == << [k |-> "bytes", u |-> <<97>>], [k |-> "bytes", u |-> <<97, 98>>], [k |-> "str", u |-> <<97>>],
              [k |-> "cplx", re |-> One, im |-> N("zero", FALSE, 0, <<>>)], [k |-> "cplx", re |-> One, im |-> One] >>
 Vals == Nums \o Others
@@ -63,24 +69,39 @@ U == {UList[i] : i \in 1..Len(UList)}
 
 ASSUME PrintT(<<"UNIVERSE", UList>>)
 
-Init == a \in U /\ b \in U /\ c \in U
-Next == UNCHANGED vars
+\* chosen in two steps only so that TLC's workers share the work (initial states are handled by one thread)
+Nil  == Obj(0, FALSE, FALSE, [k |-> "opaque"])
+Init == a \in U /\ b = Nil /\ c = Nil
+Next == \/ b = Nil /\ b' \in U /\ UNCHANGED <<a, c>>
+        \/ b # Nil /\ c = Nil /\ c' \in U /\ UNCHANGED <<a, b>>
+Chosen == b # Nil /\ c = Nil          \* a pair: everything except transitivity is about pairs
+Chosen3 == c # Nil                    \* a triple
 Spec == Init /\ [][Next]_vars
 
 OpSet == {Ops[i] : i \in 1..6}
 \* ---- the model against the clauses
-Refines     == \A op \in OpSet : CompareG(a, b, op, ImplCompare(a, b, op))
-HashLaw     == HashLawG(a, b, ImplCompare(a, b, "eq"), ImplHash(a), ImplHash(b))
-HashAsValue == HashValG(a, ImplHash(a), ValKey(a))
+RefinesR     == \A op \in OpSet : CompareG(a, b, op, ImplCompare(a, b, op))
+HashLawR     == HashLawG(a, b, ImplCompare(a, b, "eq"), ImplHash(a), ImplHash(b))
+HashAsValueR == HashValG(a, ImplHash(a), ValKey(a))
 \* ---- relational laws of the ideal (they make a consistent hash possible at all)
 D(x, y)     == Demanded(x, y)
 E(x, y)     == Expected(x, y, "eq") = "T"
-Reflexive   == D(a, a) /\ ~(a.v.k \in {"num", "cplx"} /\ HasNaN(a.v)) => E(a, a)
-Symmetric   == D(a, b) => (E(a, b) <=> E(b, a)) /\ Expected(a, b, "lt") = Expected(b, a, "gt")
+ReflexiveR   == D(a, a) /\ ~(a.v.k \in {"num", "cplx"} /\ HasNaN(a.v)) => E(a, a)
+SymmetricR   == D(a, b) => (E(a, b) <=> E(b, a)) /\ Expected(a, b, "lt") = Expected(b, a, "gt")
                           /\ Expected(a, b, "le") = Expected(b, a, "ge")
-Transitive  == D(a, b) /\ D(b, c) /\ D(a, c) /\ E(a, b) /\ E(b, c) => E(a, c)
-NeIsNotEq   == D(a, b) => (Expected(a, b, "ne") = "T" <=> Expected(a, b, "eq") = "F")
-Trichotomy  == BothPtr(a, b) => Cardinality({op \in {"lt", "eq", "gt"} : Expected(a, b, op) = "T"}) = 1
+TransitiveR  == D(a, b) /\ D(b, c) /\ D(a, c) /\ E(a, b) /\ E(b, c) => E(a, c)
+NeIsNotEqR   == D(a, b) => (Expected(a, b, "ne") = "T" <=> Expected(a, b, "eq") = "F")
+TrichotomyR  == BothPtr(a, b) => Cardinality({op \in {"lt", "eq", "gt"} : Expected(a, b, op) = "T"}) = 1
 \* whatever the implementation answers (also where nothing is demanded), equal implies same hash
-HashLawAll  == (a.cd \/ b.cd) /\ ImplCompare(a, b, "eq") = "T" => ImplHash(a) = ImplHash(b)
+HashLawAllR  == (a.cd \/ b.cd) /\ ImplCompare(a, b, "eq") = "T" => ImplHash(a) = ImplHash(b)
+\* the invariants proper: pairs, and triples for transitivity
+Refines == Chosen => RefinesR
+HashLaw == Chosen => HashLawR
+HashAsValue == Chosen => HashAsValueR
+Reflexive == Chosen => ReflexiveR
+Symmetric == Chosen => SymmetricR
+Transitive == Chosen3 => TransitiveR
+NeIsNotEq == Chosen => NeIsNotEqR
+Trichotomy == Chosen => TrichotomyR
+HashLawAll == Chosen => HashLawAllR
 =============================================================================
